@@ -490,8 +490,14 @@ class Model(CallsMixin, BuiltinsMixin):
                 b.has_const() and b.c == 2:
             out.orth = 'eig'
             out.src = a.src
-        if sym == '*' and (a.nonneg and b.nonneg):
+        if sym == '*' and ((a.nonneg and b.nonneg) or a is b):
             out.nonneg = True
+        if a.k == 'arr' and isinstance(a.rel, tuple) and \
+                a.rel[0] in ('rev', 'sq-rev') and (
+                    (sym == '**' and b.has_const()) or
+                    (sym == '*' and (a is b or b.k != 'arr')) or
+                    (sym == '/' and b.k != 'arr')):
+            out.rel = ('sq-rev',)
         if sym == '**' and b.has_const() and b.c in (2, 2.0):
             out.nonneg = True
             if a.k == 'arr':
@@ -578,6 +584,14 @@ class Model(CallsMixin, BuiltinsMixin):
             lead = self.broadcast(da[:-2], db[:-2], None)
             out = ARR(tuple(lead or ()) + (da[-2], db[-1]), 'f')
         out.taint = a.taint | b.taint
+        if len(da) == 2 and len(db) == 2 and (a.lay is not None or
+                                              b.lay is not None):
+            # the rows keep the composite order of the left operand's rows,
+            # the columns that of the right operand's columns
+            out.lay = (a.lay[0] if a.lay is not None else None,
+                       b.lay[1] if b.lay is not None else None)
+            if out.lay == (None, None):
+                out.lay = None
         if len(da) == 2 and len(db) == 1 and isinstance(b.rel, tuple) and \
                 b.rel[0] == 'row' and b.rel[1] is a:
             out.rel = ('gramrow', b.rel[2])
@@ -603,16 +617,15 @@ class Model(CallsMixin, BuiltinsMixin):
             out.cnt = (a.cnt[0] * b.cnt[0], a.cnt[1] * b.cnt[1])
         out.orth = self.orth_matmul(a, b)
         # Gram matrices  A @ A.T  /  A.T @ A  of one array
-        if isinstance(node, ast.BinOp) and len(da) == 2 and len(db) == 2:
-            l, r_ = node.left, node.right
-            if isinstance(r_, ast.Attribute) and r_.attr == 'T' and \
-                    isinstance(l, ast.Name) and \
-                    isinstance(r_.value, ast.Name) and r_.value.id == l.id:
+        # (the transpose relation is kept by object identity, so any spelling
+        # of the product -- @, np.matmul, .dot -- is recognised)
+        if len(da) == 2 and len(db) == 2:
+            if isinstance(b.rel, tuple) and b.rel[0] == 'T' and \
+                    b.rel[1] is a:
                 out.src = ('gram', 'left', id(a), a)
                 out.unit = 2 * (a.unit if a.unit is not None else 1)
-            if isinstance(l, ast.Attribute) and l.attr == 'T' and \
-                    isinstance(r_, ast.Name) and \
-                    isinstance(l.value, ast.Name) and l.value.id == r_.id:
+            if isinstance(a.rel, tuple) and a.rel[0] == 'T' and \
+                    a.rel[1] is b:
                 out.src = ('gram', 'right', id(b), b)
                 out.unit = 2 * (b.unit if b.unit is not None else 1)
         if a.orth == 'whiten' and a.src is not None and \
@@ -724,6 +737,12 @@ class Model(CallsMixin, BuiltinsMixin):
             def _nn0(v):
                 return v.has_const() and isinstance(v.c, (int, float)) and \
                     not isinstance(v.c, bool) and v.c >= 0
+            if a.k == 'arr' and b.has_const() and b.c == 0 and \
+                    not isinstance(b.c, bool) and isinstance(op, ast.Lt):
+                rm.rel = ('negmask', a)
+            elif b.k == 'arr' and a.has_const() and a.c == 0 and \
+                    not isinstance(a.c, bool) and isinstance(op, ast.Gt):
+                rm.rel = ('negmask', b)
             if a.k == 'arr' and _nn0(b) and isinstance(op, ast.Gt):
                 rm.rel = ('nzmask', a.rel[1] if isinstance(a.rel, tuple) and
                           a.rel[0] == 'absof' else a)
@@ -735,6 +754,30 @@ class Model(CallsMixin, BuiltinsMixin):
                     if x.k == 'arr' and y.has_const() and y.c == 0 and \
                             not isinstance(y.c, bool):
                         rm.rel = ('nzmask', x)
+            # prefix sums of non-negative terms are non-decreasing:
+            #   cumsum(x) <= c  /  c >= cumsum(x)   is True on a PREFIX.
+            # The number of True entries is one data dependent count D with
+            # 0 <= D <= len; where(mask)[0] is then arange(D).
+            cs = None
+            if a.k == 'arr' and b.k != 'arr' and isinstance(
+                    op, (ast.LtE, ast.Lt)):
+                cs = a
+            elif b.k == 'arr' and a.k != 'arr' and isinstance(
+                    op, (ast.GtE, ast.Gt)):
+                cs = b
+            if cs is not None and isinstance(cs.src, tuple) and cs.src and \
+                    cs.src[0] == 'cumsum' and cs.dims is not None and \
+                    len(cs.dims) == 1 and cs.dims[0] is not None:
+                from . import poly as _poly
+                # the atom carries what it counts: (tag, where, line, serial,
+                # length of the mask, strict comparison?, sums from the end?)
+                I.fresh_n += 1
+                at = ('count', I.where(), getattr(node, 'lineno', 0),
+                      I.fresh_n, cs.dims[0],
+                      isinstance(op, (ast.Lt, ast.Gt)),
+                      cs.rel == ('cumsum-rev',))
+                D = Poly.sym(at)
+                rm.rel = ('prefix', D)
             return rm
         if a.has_const() and b.has_const():
             try:
@@ -834,7 +877,8 @@ class Model(CallsMixin, BuiltinsMixin):
                 nd_ = len(base.dims)
                 dl = tuple(sorted((nd_ - 1 - dl[0], nd_ - 1 - dl[1])))
             return base.copy(dims=tuple(reversed(base.dims)), orth=o, lay=lay,
-                             delta=dl)
+                             delta=dl, rel=('T', base)
+                             if len(base.dims) == 2 else None)
         if attr == 'ndim':
             if base.dims is None:
                 return INT()
@@ -1036,6 +1080,13 @@ class Model(CallsMixin, BuiltinsMixin):
         if not out and not adv:
             # scalar element
             s = self.I.scalar_of(base)
+            if isinstance(base.rel, tuple) and base.rel[0] == 'arange' and \
+                    len(comps) == 1 and comps[0].k == 'int' and \
+                    comps[0].has_const() and base.dt == 'i':
+                # element k of 0..D-1 (k from the end for k < 0)
+                k_ = comps[0].c
+                s = INT(base.rel[1] + k_) if k_ < 0 else INT(k_)
+                s.nonneg = True
             if isinstance(base.rel, tuple) and base.rel[0] == 'gramrow' and \
                     len(comps) == 1 and comps[0] is base.rel[1]:
                 s.nonneg = True     # (M @ M[i])[i] = |M[i]|**2
@@ -1063,6 +1114,15 @@ class Model(CallsMixin, BuiltinsMixin):
             r.delta = (axmap[base.delta[0]], axmap[base.delta[1]])
         if out_lay is not None and any(x is not None for x in out_lay):
             r.lay = tuple(out_lay)
+        if not advanced and len(base.dims) == 1 and len(comps) == 1 and \
+                comps[0].k == 'slice':
+            lo_, hi_, st_ = comps[0].items
+            if (lo_ is None or lo_.k == 'none') and \
+                    (hi_ is None or hi_.k == 'none') and st_ is not None \
+                    and st_.has_const() and st_.c == -1:
+                # the whole vector in reverse order
+                r.rel = ('rev', base.rel[1]) if isinstance(base.rel, tuple) \
+                    and base.rel[0] == 'rev0' else ('rev', base)
         if not advanced:
             if len(base.dims) == 2 and len(comps) == 1 and \
                     comps[0].k == 'int':
@@ -1083,6 +1143,10 @@ class Model(CallsMixin, BuiltinsMixin):
                                                comps[0].idx == 'perm')
             r.orth = self.orth_slice(base, comps) if keep else None
             r.src = base.src if keep else None
+            if not keep and len(base.dims) == 1 and base.orth in (
+                    'sigma', 'halfvec', 'eig', 'sing', 'invsing'):
+                r.orth = base.orth      # any selection of singular values
+                r.src = base.src
         if base.idx is not None:
             r.idx = base.idx
         if len(comps) == 1 and comps[0].k == 'arr' and comps[0].dt == 'b' and \
